@@ -150,7 +150,8 @@ def run(module, cfg, spec_dir, files=None, workers=16, timeout=3600, simulate=No
                     f.write(content)
                 else:
                     json.dump(content, f, separators=(",", ":"))
-        cmd = ["java", "-XX:+UseParallelGC", "-XX:ParallelGCThreads=4", "-Xmx" + heap]
+        # TLC creates a directory under java.io.tmpdir on every start: keep it inside the private scratch directory
+        cmd = ["java", "-XX:+UseParallelGC", "-XX:ParallelGCThreads=4", "-Xmx" + heap, "-Djava.io.tmpdir=" + tmp]
         if workers == 1:
             cmd += ["-XX:ParallelGCThreads=2", "-XX:CICompilerCount=2", "-XX:TieredStopAtLevel=1"]
         if dfs:
